@@ -498,6 +498,11 @@ func (e *Eng) applyFuncSpec(fr *Frame, fs *FuncSpec, callee *ssa.Function, c *ss
 	if fs.Monitor != "" {
 		if ls := e.spec.Locks[fs.Monitor]; ls != nil && len(args) > 0 {
 			e.assumeLockInvs(ls, args[0], st, g)
+			if st.held[fs.Monitor] == "" {
+				// the callee released the lock before returning: what it protects may have moved on since
+				e.havocProtected(st, ls)
+				e.assumeLockInvs(ls, args[0], st, g)
+			}
 		}
 	}
 	return e.packResults(c, rs)
@@ -665,9 +670,48 @@ func (e *Eng) lockOp(fr *Frame, op string, recv *Val, st *State, g string, pos t
 			}
 		}
 		delete(st.held, key)
+		e.releaseLock(st, ls, key, base, g)
 	case "RUnlock":
 		delete(st.held, key)
+		e.releaseLock(st, ls, key, base, g)
 	}
+}
+
+// releaseLock: once the lock is released other goroutines may change what it protects. For a monitor
+// function the state at the moment of release is kept under "@post." names: that is the state its
+// postconditions talk about.
+func (e *Eng) releaseLock(st *State, ls *LockSpec, key string, base *Val, g string) {
+	if ls == nil {
+		return
+	}
+	rs := e.rootSpec()
+	isMon := rs != nil && rs.Monitor == key
+	for _, p := range ls.Protects {
+		for _, r := range e.resolveRegionPattern(p) {
+			if isMon {
+				e.regionSort["@post."+r] = e.regionSort[r]
+				st.reg["@post."+r] = e.get(st, r, e.regionSort[r])
+			}
+		}
+	}
+	if e.atRootExit && len(e.inlineStack) == 0 {
+		// released by a deferred call of the root function itself: the function returns next, its
+		// postconditions are evaluated on the "@post." view, so the interference step is not needed
+		return
+	}
+	e.havocProtected(st, ls)
+	e.assumeLockInvs(ls, base, st, g)
+}
+
+// postView: the state a monitor function's postconditions are evaluated in (protected regions as of the release).
+func (e *Eng) postView(st *State) *State {
+	v := st.clone()
+	for k, t := range st.reg {
+		if strings.HasPrefix(k, "@post.") {
+			v.reg[strings.TrimPrefix(k, "@post.")] = t
+		}
+	}
+	return v
 }
 
 func (e *Eng) rootSpec() *FuncSpec {
